@@ -156,6 +156,22 @@ Definition spec_header (fmt : N) (mem : option dmem) (l : bytes) : option (dmem 
     end
   else None.
 
+(* chunk data for the message open in m (memory of chunk stream csid) *)
+Definition spec_body (st : dstate) (csid : N) (m : dmem) (l2 : bytes) : option (dstate * option smsg * bytes) :=
+  let n := N.min (ds_chunk st) (d_len m - d_got m) in
+  match read_body l2 n (d_rpart m) with
+  | None => None
+  | Some (rpart, l3) =>
+      let got := d_got m + n in
+      if got =? d_len m then
+        let msg := mk_smsg csid (d_type m) (d_msid m) (d_ts m) (rev_append rpart []) in
+        let m' := mk_dmem (d_ts m) (d_delta m) (d_len m) (d_type m) (d_msid m) (d_ext m) false [] 0 in
+        Some (mk_dstate (spec_chunk_after (ds_chunk st) msg) (nset csid m' (ds_mem st)), Some msg, l3)
+      else
+        let m' := mk_dmem (d_ts m) (d_delta m) (d_len m) (d_type m) (d_msid m) (d_ext m) true rpart got in
+        Some (mk_dstate (ds_chunk st) (nset csid m' (ds_mem st)), None, l3)
+  end.
+
 (* one chunk: new state, completed message (if any), rest of the input *)
 Definition spec_chunk (st : dstate) (l : bytes) : option (dstate * option smsg * bytes) :=
   match spec_basic l with
@@ -163,20 +179,7 @@ Definition spec_chunk (st : dstate) (l : bytes) : option (dstate * option smsg *
   | Some (fmt, csid, l1) =>
       match spec_header fmt (nget csid (ds_mem st)) l1 with
       | None => None
-      | Some (m, l2) =>
-          let n := N.min (ds_chunk st) (d_len m - d_got m) in
-          match read_body l2 n (d_rpart m) with
-          | None => None
-          | Some (rpart, l3) =>
-              let got := d_got m + n in
-              if got =? d_len m then
-                let msg := mk_smsg csid (d_type m) (d_msid m) (d_ts m) (rev_append rpart []) in
-                let m' := mk_dmem (d_ts m) (d_delta m) (d_len m) (d_type m) (d_msid m) (d_ext m) false [] 0 in
-                Some (mk_dstate (spec_chunk_after (ds_chunk st) msg) (nset csid m' (ds_mem st)), Some msg, l3)
-              else
-                let m' := mk_dmem (d_ts m) (d_delta m) (d_len m) (d_type m) (d_msid m) (d_ext m) true rpart got in
-                Some (mk_dstate (ds_chunk st) (nset csid m' (ds_mem st)), None, l3)
-          end
+      | Some (m, l2) => spec_body st csid m l2
       end
   end.
 
